@@ -1,5 +1,50 @@
-"""SIB — sibling agreement rules (filled in later in the build order)."""
+"""SIB — sibling agreement rules.
+
+M4: `calculate_hops` (analysis: how many qualifying chain entries lie before the reference actually used) and `hop_match`
+(reconstruction: walk the chain to the n-th qualifying entry) must walk the same chain, stop at the same window limit and
+count an entry under the same condition — otherwise the hop count written by one names a different distance in the other.
+Compared as canonical descriptors with the reference length abstracted to L."""
+import re
+from .. import flow
+from ..facts import callee_def
+from ..common import strip_generics
+
+H = "<preflate_rs::hash_chain_holder::HashChainHolderImpl<H> as preflate_rs::hash_chain_holder::HashChainHolder>::"
+_LEN = [r"preflate_token::PreflateTokenReference::len\(arg<&preflate_rs::preflate_token::PreflateTokenReference>\)", r"arg<u32>#0"]
 
 
-def m4(F, rep):
-    return
+def _profile(F, fn, lenpat):
+    b = F.body(H + fn)
+    norm = lambda d: re.sub(lenpat, "L", d)
+    prof = {"iterate": [], "window-stop": [], "prefix_compare": [], "counts-when": [], "enough-input": []}
+    for bb in sorted(b.normal_blocks()):
+        t = b.term(bb)
+        if t["k"] == "call":
+            cn = strip_generics(callee_def(t))
+            if cn.endswith("HashChain::iterate"):
+                prof["iterate"].append(norm(",".join(flow.describe(b, a) for a in t["args"][1:])))
+            elif cn.endswith("prefix_compare"):
+                prof["prefix_compare"].append(norm(" ; ".join(flow.describe(b, a) for a in t["args"])))
+        elif t["k"] == "switch" and not t.get("exp"):
+            d = norm(flow.describe(b, t["d"]))
+            if re.match(r"^(Gt|Ge|Lt|Le)\(next\(into_iter\(.*iterate\(.*\)\)\) as Some\.0, min\(", d):
+                prof["window-stop"].append(d)
+            elif re.match(r"^(Ge|Gt|Le|Lt|Eq|Ne)\(.*prefix_compare\(", d):
+                prof["counts-when"].append(re.sub(r"prefix_compare\(.*\), ", "prefix_compare(..), ", d))
+            elif re.match(r"^(Lt|Le|Gt|Ge)\(min\(.*remaining\(", d):
+                prof["enough-input"].append(d)
+    return b, {k: sorted(v) for k, v in prof.items()}
+
+
+def m4(F, rep, rule="M4"):
+    try:
+        b1, p1 = _profile(F, "calculate_hops", _LEN[0])
+        b2, p2 = _profile(F, "hop_match", _LEN[1])
+    except Exception as e:
+        rep.add(rule, "hops-siblings", False, "", "ANCHOR-MISSING: %s" % e)
+        return
+    where = "%s:%s" % (b1.file, b1.line)
+    for k in sorted(p1):
+        ok = p1[k] == p2[k] and len(p1[k]) == 1
+        rep.add(rule, "hops-siblings:" + k, ok, where,
+                "calculate_hops and hop_match agree: %s" % p1[k] if ok else "calculate_hops: %s / hop_match: %s" % (p1[k], p2[k]))
